@@ -18,7 +18,8 @@ def handle (tb : Tables) (c impl : T) : String :=
       let hs ← optMap C05.decHint (← hs.asList)
       pure (ins, vds, decl, given, calls, hs)) with
     | none => "bad-op"
-    | some (ins, vds, decl, given, calls, hs) =>
+    | some (ins0, vds, decl, given, calls, hs) =>
+      let ins := ins0.map (fun d => { d with nullDflt := tb.inputNullTakesDefault })
       let ext := nativeExt hs
       let tin := inTbl tb
       let cfgCur := cfgCurOf tb
